@@ -45,10 +45,10 @@ Fixpoint pacts (p : prog bytes) (reads : list bytes) {struct p} : list pact :=
 
 Definition is_some {A} (o : option A) : bool := match o with Some _ => true | None => false end.
 
-(* does the echo read of an event consume a read?  (ReadUntilFuzzy returns at once for an empty input) *)
+(* does the echo read of an event consume a read?  (the echo reads return at once for an empty input) *)
 Definition echo_reads (o : op_opts) (e : ievent) : bool :=
   is_some (ev_response e) && negb (ev_hidden e)
-  && negb (match ev_input e with [] => negb (o_exact o) | _ => false end).
+  && negb (match ev_input e with [] => true | _ => false end).
 
 (* the flags of the events, given what the reads return *)
 Fixpoint mflags (o : op_opts) (events : list ievent) (reads : list bytes) : list (bool * bool * bool) :=
@@ -66,9 +66,9 @@ Definition act_pacts (cfg : chan_cfg) (o : op_opts) (events : list ievent) (a : 
   match a with
   | AWrite i red => match nth_error events i with Some e => [PW (ev_input e) red] | None => [] end
   | AEcho i => match nth_error events i with
-               | Some e => match ev_input e, o_exact o with
-                           | [], false => []
-                           | _, _ => [PU (echo_cond o (ev_input e))]
+               | Some e => match ev_input e with
+                           | [] => []
+                           | _ => [PU (echo_cond o (ev_input e))]
                            end
                | None => []
                end
